@@ -1,7 +1,8 @@
 (* TermEmu.v -- a terminal emulator for exactly the byte sequences neatvi writes (term.c, led.c):
    printable characters (UTF-8 decoded, one or two cells), CR, LF (scrolls the region when on its
    bottom row), CUP `ESC[r;cH`, EL `ESC[K`, IL `ESC[nL`, DL `ESC[nM`, DECSTBM `ESC[t;br` / `ESC[r`,
-   CUF `ESC[nC`, CUB `ESC[nD`; SGR `ESC[...m` is ignored.  Anything else is counted in t_err (the
+   CUF `ESC[nC`, CUB `ESC[nD`; SGR `ESC[...m` is ignored; DEL (0x7f) is ignored as a real terminal
+   ignores it.  Anything else (the other C0 controls included) is counted in t_err (the
    check reports a stream with t_err > 0).  The model is executable and is extracted: it is the
    interpreter of the real `vi -v` stream in the C19 check.  No proofs here (see DrawProps.v). *)
 From Coq Require Import List NArith ZArith Bool Arith.
@@ -152,7 +153,9 @@ Definition feed (t : term) (b : N) : term :=
     if (b =? 27)%N then with_st t Esc
     else if (b =? 13)%N then with_cur t (t_r t) 0
     else if (b =? 10)%N then linefeed t
-    else if (b <? 32)%N || (b =? 127)%N then with_err t
+    else if (b =? 127)%N then t           (* DEL: ignored, as on a VT/xterm (no cell, no cursor movement) -- a raw DEL sent for
+                                             a character that the column mapping counts as one cell shifts the rest of the row *)
+    else if (b <? 32)%N then with_err t   (* BEL BS HT VT FF SO SI ...: a real terminal acts on them; neatvi never writes them *)
     else if (b <? 128)%N then put t b
     else if (b <? 192)%N then with_err t
     else if (b <? 224)%N then with_st t (Utf 1 (N.land b 31))
